@@ -136,7 +136,90 @@ def check_treeinfo(ctx, pmt, D, order_seed, tmpdir):
     if problems:
         ctx.violation("ti-M5-file-roundtrip", "dump(path)/load(path) equals the string round trip", case,
                       observed=problems[:8], expected="no difference", key=key_ti(D, problems))
+    check_ti_edit_after_reload(ctx, pmt, D, ti2, rng, case)
     return True
+
+
+def _ti_find(ti, uid):
+    todo = list(ti.variants.variants.values())
+    while todo:
+        v = todo.pop()
+        if v.uid == uid:
+            return v
+        todo.extend(v.variants.values())
+    return None
+
+
+def check_ti_edit_after_reload(ctx, pmt, D, ti2, rng, case):
+    """ti-M6: the re-read tree is a tree like any other: facts are REMOVED from it (a checksum entry, a variant path, an image
+    platform, the second stage2 image, the media section, a leaf child) and it is written again - nothing of the file it was
+    read from survives in the new file."""
+    import copy
+    import posixpath
+    D2 = copy.deepcopy(D)
+    edits = []
+    if D2["checksums"] and rng.random() < 0.7:
+        k = rng.choice(sorted(D2["checksums"]))
+        stored = k if D2.get("checksums_direct") else posixpath.normpath(k)
+        others = [k2 for k2 in D2["checksums"] if k2 != k and (k2 if D2.get("checksums_direct") else posixpath.normpath(k2)) == stored]
+        if stored in ti2.checksums.checksums and not others:
+            del ti2.checksums.checksums[stored]
+            del D2["checksums"][k]
+            edits.append("checksum-entry-removed")
+    nodes = [v for v in F.iter_nodes(D2["variants"]) if any(p is not None for p in v["paths"].values())]
+    if nodes and rng.random() < 0.7:
+        v = rng.choice(nodes)
+        k = rng.choice(sorted(k0 for k0, p in v["paths"].items() if p is not None))
+        obj = _ti_find(ti2, v["uid"])
+        if obj is not None:
+            setattr(obj.paths, k, None)
+            v["paths"].pop(k)
+            edits.append("variant-path-removed")
+    if D2["images"] and rng.random() < 0.5:
+        plat = rng.choice(sorted(D2["images"]))
+        if plat in ti2.images.images:
+            del ti2.images.images[plat]
+            del D2["images"][plat]
+            edits.append("image-platform-removed")
+    if D2["stage2"]["instimage"] is not None and rng.random() < 0.5:
+        ti2.stage2.instimage = None
+        D2["stage2"]["instimage"] = None
+        edits.append("stage2-instimage-removed")
+    if D2["media"] and rng.random() < 0.5:
+        ti2.media.discnum = None
+        ti2.media.totaldiscs = None
+        D2["media"] = None
+        edits.append("media-removed")
+    parents = [v for v in F.iter_nodes(D2["variants"]) if any(not c["children"] for c in v["children"])]
+    if parents and rng.random() < 0.5:
+        par = rng.choice(parents)
+        child = rng.choice([c for c in par["children"] if not c["children"]])
+        obj = _ti_find(ti2, par["uid"])
+        if obj is not None and child["id"] in obj.variants:
+            del obj.variants[child["id"]]
+            par["children"].remove(child)
+            edits.append("leaf-child-removed")
+    if not edits:
+        return
+    for e in edits:
+        ctx.count("ti-edit-after-reload-" + e)
+    case6 = dict(case, edited_after_reload=edits, treeinfo_after_edit=D2)
+    try:
+        t3 = ti2.dumps()
+        ti4 = pmt.TreeInfo()
+        ti4.loads(t3)
+        obs4, structural = F.observe(ti4)
+        probs = structural + _diff(F.expected_obs(D2), obs4)
+        if not probs:
+            t_fresh = F.build(pmt, D2, None).dumps()
+            if t_fresh != t3:
+                probs = ["the edited re-read tree and a freshly built tree with the same content write different text", _first_diff(t_fresh, t3)]
+    except Exception as e:
+        probs = ["raised %s: %s" % (type(e).__name__, str(e)[:200])]
+    ctx.monitor("ti-M6-edited-after-reload", fired=bool(probs))
+    if probs:
+        ctx.violation("ti-M6-edited-after-reload", "a re-read tree that is edited and written again is read back as the edited tree",
+                      case6, observed=probs[:8], expected="no difference")
 
 
 def key_ti(D, msgs):
